@@ -57,7 +57,7 @@ Definition valid_child_name (child : option str) (expected : option str) : bool 
 Definition valid_z_segment_name (n : str) : bool :=
   match upper n with c :: _ => beqb c "Z" && Nat.eqb (length n) 3 | [] => false end.
 
-(* re.match(r'^z[a-z1-9]{2}_\d+$', name, re.IGNORECASE), ASCII domain ($ admits one final newline) *)
+(* re.match(r'^z[a-z1-9]{2}_\d+$', name, re.IGNORECASE), ASCII domain ($ accepts one final newline) *)
 Definition az19 (b : byte) : bool := is_alpha b || between 49 57 b.
 Fixpoint digits_then_end (s : str) : bool :=
   match s with
